@@ -93,6 +93,17 @@ def gen_C12(tier, rng):
             yield (f"x25519.dh {le32(s)} {le32(rng.choice(SMALL_ORDER_U))}", "dh.bit.smallorder")
             yield (f"x25519.dh {le32(s)} {le32(rng.choice(specials_u))}", "dh.bit.special")
             yield (f"x25519.dh {le32(2**256 - 1 - s)} {le32(rng.getrandbits(256))}", "dh.cobit.random")
+    # every single-bit scalar x every u the property names: 0, 1, p-1, p, p+1, 2^255-1, 2^256-1 and the known small-order u values
+    # (thorough: all 256 bits x 9 u = 2304 lines; quick: every 8th bit, 288 lines) — by construction, not by a random draw
+    named_u = []
+    for u in [0, 1, P - 1, P, P + 1, 2**255 - 1, 2**256 - 1] + SMALL_ORDER_U:
+        if u not in named_u:
+            named_u.append(u)
+    for i, s in enumerate(scal_bits):
+        if quick and i % 8:
+            continue
+        for u in named_u:
+            yield (f"x25519.dh {le32(s)} {le32(u)}", "dh.bit.named_u")
     # special scalars x all special u
     for s in scal_special + [rng.getrandbits(256) for _ in range(2 if quick else 8)]:
         yield (f"x25519.base {le32(s)}", "base.special")
